@@ -51,6 +51,12 @@ def type_catalogue(tier):
     cat += [["delim", d, -(-L.tmax(d) // 8) * 8 + e] for d in comps[:40] for e in (0, 8)]
     cat += [d for i, d in enumerate(c02.family("depth2s", tier)) if i % (997 if tier == "quick" else 199) == 0]
     cat += [["farr", d, 2] for d in comps[:6]] + [["varr", d, 2] for d in comps[:6]]
+    # unions / structures whose first member is itself composed (struct, array) and whose other members add residues
+    for first in (["struct", [["uint", 32, "s"]]], ["varr", ["uint", 16, "s"], 2], ["farr", ["uint", 3, "s"], 3], ["struct", [["varr", ["bool"], 3]]]):
+        for second in (["uint", 8, "s"], ["bool"], ["uint", 17, "t"]):
+            cat.append(["union", [first, second]])
+            cat.append(["struct", [first, second]])
+            cat.append(["delim", ["union", [first, second]], 128])
     return cat
 
 
@@ -320,6 +326,20 @@ def check_object(case, R):
             if again != snapshot or obs(cat, x) != before or str(x) != sb:
                 R.violation("accessor-exposes-internal-list:%s.%s" % (type(x).__name__ if not isinstance(x, pydsdl.CompositeType) else "CompositeType", name), "lists returned by accessors are copies", {**one, "accessor": name}, observed=repr(again)[:200], expected=repr(snapshot)[:200])
                 return
+    # immutability under use: after the object has been compared / hashed / queried, every nested type object must still equal
+    # an independently built object of the same description (a shared cache mutated by a parent's query would show here)
+    if cat == "type" and T.is_composite(d):
+        inner = d[1] if d[0] == "delim" else d
+        twin = make(cat, d)
+        _ = (x == twin, twin == x, hash(x), x.bit_length_set.is_aligned_at(32), sorted(x.bit_length_set % 64), [o.is_aligned_at_byte() for _f, o in x.iterate_fields_with_offsets()])
+        nested = [f.data_type for f in x.inner_type.fields]
+        for fdesc, ft in zip(inner[1], nested):
+            R.case([cat, d, "nested-after-use", T.key(fdesc)], nontrivial=True, sample=False)
+            fresh = T.build(fdesc, cache={})
+            if not (ft == fresh and fresh == ft and hash(ft) == hash(fresh)) or dump.dtype(ft) != dump.dtype(fresh):
+                R.violation("nested-object-changed-by-use:" + fdesc[0], "model objects are immutable: using a type does not change the objects it is built from", {**one, "field": fdesc}, observed=dump.dtype(ft).get("bls"), expected=dump.dtype(fresh).get("bls"))
+                return
+        R.outcome("nested-after-use")
     # pickle
     R.case([cat, d, "pickle"], nontrivial=True, sample=False)
     y = pickle.loads(pickle.dumps(x))
